@@ -11,16 +11,18 @@ CONSTANTS Tenants = {tenants}
           Procs = {procs}
           Unlimited = 1000000
           LegacyUpdates = {legacy_updates}
+          SkipUpdateAtZeroUsage = {skip_update}
           LegacyRecover = {legacy_recover}
           Race = {race}
           Mode = "{mode}"
           MaxOps = {maxops}
           MaxHist = {maxhist}
           NodeIds = {nodeids}
-          EdgeIds = {{1}}
+          EdgeIds = {edgeids}
           LabelSeqs <- {labels}
           Ends <- {ends}
-          CreateVals = {{0, 1}}
+          CreateVals = {createvals}
+          SeedMain = {seedmain}
           UpdateVals = {{2}}
           ConcQuotas = {quotas}
           ConcKinds = {kinds}
@@ -37,7 +39,7 @@ CHECK_DEADLOCK FALSE
 # key separator ':' ("t10:..." < "t1:..." < "t1z:..."): scans, recovery and counters of one tenant next to the others' keys
 SIBLINGS = '{"t1", "t10", "t1z"}'
 
-DEFAULTS = dict(tenants='{"t1"}', spec="Spec", procs="{1}", legacy_updates="FALSE", legacy_recover="FALSE", race="FALSE", mode="seq",
+DEFAULTS = dict(skip_update="FALSE", edgeids="{1}", createvals="{0, 1}", seedmain="FALSE", tenants='{"t1"}', spec="Spec", procs="{1}", legacy_updates="FALSE", legacy_recover="FALSE", race="FALSE", mode="seq",
                 maxops=3, maxhist=9, nodeids="{1, 2}", labels="LS2", ends="Ends1", quotas="{1}", kinds='{"n"}',
                 crash="TRUE", view="VIEW ViewSeq", constraint="CONSTRAINT Bound", emit="", invs="", props="")
 
@@ -53,6 +55,7 @@ CONSTANTS Tenants = {{"t1", "t10", "t1z"}}
           Procs = {{1, 2, 3}}
           Unlimited = 1000000
           LegacyUpdates = FALSE
+          SkipUpdateAtZeroUsage = FALSE
           LegacyRecover = FALSE
           BindUsage = {bind_usage}
           OpenKF = @OPENKF@
